@@ -120,3 +120,17 @@ Theorem C15_fill_state : forall (vals : list N),
   lenN vals <= 32768 -> exists tr, q_run (map OIns vals) = Ok (c15_prefill vals, tr).
 Proof. exact fill_state_run. Qed.
 Print Assumptions C15_fill_state.
+
+(* unsolicited replies and the read timeout: respected exactly when demux_reply
+   resets the timer only after the ID lookup succeeded (T1 item
+   timer_reset_requires_known_id); refuted for the code where it does not *)
+Theorem C15_junk_keeps_deadline_if_known_only :
+  timer_reset_requires_known_id = true -> junk_keeps_deadline.
+Proof. exact junk_keeps_deadline_if_known_only. Qed.
+Print Assumptions C15_junk_keeps_deadline_if_known_only.
+
+Theorem C15_junk_extends_deadline_refuted :
+  timer_reset_requires_known_id = false ->
+  junk_deadline 60 0 [20; 40; 60; 80; 100; 120; 140; 160; 180; 200] = 260 /\ ~ junk_keeps_deadline.
+Proof. exact junk_extends_deadline_refuted. Qed.
+Print Assumptions C15_junk_extends_deadline_refuted.
